@@ -36,6 +36,7 @@ pub struct Th {
     pub ro_steps: usize,
     pub in_call: bool,
     pub call_steps: usize,
+    pub in_try: bool,
 }
 
 pub struct Inner {
@@ -98,7 +99,7 @@ impl Sched {
     /// holds the baton); returns its tid.
     pub fn register(&self) -> usize {
         let mut g = self.inner.lock().unwrap();
-        g.threads.push(Th { state: ThState::NotStarted, steps: 0, ro_steps: 0, in_call: false, call_steps: 0 });
+        g.threads.push(Th { state: ThState::NotStarted, steps: 0, ro_steps: 0, in_call: false, call_steps: 0, in_try: false });
         g.threads.len() - 1
     }
 
@@ -112,6 +113,7 @@ impl Sched {
         let mut g = self.inner.lock().unwrap();
         g.threads[tid].in_call = true;
         g.threads[tid].call_steps = 0;
+        g.threads[tid].in_try = text.starts_with("try_");
         g.trace.push(Rec::Call { tid, text });
     }
 
@@ -119,6 +121,7 @@ impl Sched {
         let tid = my_tid();
         let mut g = self.inner.lock().unwrap();
         g.threads[tid].in_call = false;
+        g.threads[tid].in_try = false;
         g.trace.push(Rec::Ret { tid, text });
     }
 
@@ -289,6 +292,12 @@ pub enum Strategy {
     /// thread `victim` is not scheduled from its `at`-th step on unless nobody else can move
     Stall { victim: usize, at: usize },
     Replay(Vec<usize>),
+    /// from global step `start` on, as soon as thread `tid` is inside a try_* call, only that thread runs
+    /// until the call returns (every other thread is frozen where it is); at most `bound` own steps
+    Solo { start: usize, tid: usize, bound: usize, when_pinned: bool },
+    /// freeze the first thread found inside a clone/view body, let the others run `delay` more steps, then run
+    /// one thread that is inside a try_* call alone (at most `bound` own steps), then thaw everything
+    FreezeThenSolo { delay: usize, bound: usize },
 }
 
 pub struct Rng(pub u64);
@@ -321,6 +330,8 @@ pub enum Outcome {
     /// all live threads spin without any shared write
     Livelock(Vec<usize>),
     Budget,
+    /// a try operation did not return within the bound of its own steps while running alone
+    SoloExceeded(usize, usize),
 }
 
 pub const SPIN_LIMIT: usize = 400;
@@ -336,6 +347,14 @@ pub fn control(s: &Arc<Sched>, strat: &Strategy, rng: &mut Rng, budget: usize) -
     }
     let mut replay_pos = 0usize;
     let mut low = 0u64;
+    let mut solo_active = false;
+    let mut solo_done = false;
+    let mut solo_steps = 0usize;
+    let mut solo_tid: Option<usize> = None;
+    let mut fts_phase = 0usize;
+    let mut fts_victim = 0usize;
+    let mut fts_until = 0usize;
+    let mut fts_solo = 0usize;
     loop {
         let mut g = s.inner.lock().unwrap();
         // wait until nobody is running
@@ -397,7 +416,96 @@ pub fn control(s: &Arc<Sched>, strat: &Strategy, rng: &mut Rng, budget: usize) -
         let soft: Vec<usize> = nonspin.iter().cloned().filter(|&i| g.threads[i].ro_steps < 24).collect();
         let cands = if soft.is_empty() { nonspin.clone() } else { soft };
         let step = g.total_steps;
+        // solo mode: a try operation runs alone
+        if let Strategy::Solo { start, tid, bound, when_pinned } = strat {
+            // `when_pinned`: wait until some thread sits inside a payload clone/view body (it holds a pin or
+            // a position) and then run any *other* thread that is inside a try_* call alone
+            let mut tid_v = *tid;
+            if *when_pinned && !solo_active && !solo_done {
+                let frozen: Vec<usize> = g.threads.iter().enumerate().filter(|(_, th)| matches!(&th.state, ThState::AtPoint(e) if e.kind == Kind::Tau && (e.what == "clone_mid" || e.what == "view_mid"))).map(|(i, _)| i).collect();
+                let cand: Vec<usize> = (0..g.threads.len()).filter(|i| g.threads[*i].in_try && !frozen.contains(i) && enabled.contains(i)).collect();
+                if !frozen.is_empty() && !cand.is_empty() && step >= *start {
+                    solo_tid = Some(cand[rng.below(cand.len())]);
+                }
+            }
+            if let Some(st) = solo_tid {
+                tid_v = st;
+            } else if *when_pinned {
+                tid_v = usize::MAX;
+            }
+            let tid = &tid_v;
+            if step >= *start && *tid < g.threads.len() && g.threads[*tid].in_try && !solo_done {
+                if !solo_active {
+                    solo_active = true;
+                    solo_steps = 0;
+                    g.trace.push(Rec::Info { text: format!("solo {} begins", tid) });
+                }
+                if enabled.contains(tid) {
+                    solo_steps += 1;
+                    if solo_steps > *bound {
+                        return Outcome::SoloExceeded(*tid, solo_steps);
+                    }
+                    g.schedule.push(*tid);
+                    g.granted = Some(*tid);
+                    g.threads[*tid].state = ThState::Running;
+                    drop(g);
+                    s.cv.notify_all();
+                    continue;
+                } else {
+                    // blocked on a lock held by a frozen thread: that is waiting for another thread
+                    return Outcome::SoloExceeded(*tid, solo_steps);
+                }
+            } else if solo_active {
+                solo_active = false;
+                solo_done = true;
+                g.trace.push(Rec::Info { text: format!("solo ends after {} steps", solo_steps) });
+            }
+        }
+        if let Strategy::FreezeThenSolo { delay, bound } = strat {
+            if fts_phase == 0 {
+                if let Some((i, _)) = g.threads.iter().enumerate().find(|(_, th)| matches!(&th.state, ThState::AtPoint(e) if e.kind == Kind::Tau && (e.what == "clone_mid" || e.what == "view_mid"))) {
+                    fts_victim = i;
+                    fts_phase = 1;
+                    fts_until = step + *delay;
+                    g.trace.push(Rec::Info { text: format!("freeze {}", i) });
+                }
+            }
+            if fts_phase == 1 && step >= fts_until {
+                let cand: Vec<usize> = (0..g.threads.len()).filter(|i| *i != fts_victim && g.threads[*i].in_try && enabled.contains(i)).collect();
+                if !cand.is_empty() {
+                    fts_solo = cand[rng.below(cand.len())];
+                    fts_phase = 2;
+                    solo_steps = 0;
+                    g.trace.push(Rec::Info { text: format!("solo {} begins", fts_solo) });
+                }
+            }
+            if fts_phase == 2 {
+                if g.threads[fts_solo].in_try {
+                    if enabled.contains(&fts_solo) {
+                        solo_steps += 1;
+                        if solo_steps > *bound {
+                            return Outcome::SoloExceeded(fts_solo, solo_steps);
+                        }
+                        g.schedule.push(fts_solo);
+                        g.granted = Some(fts_solo);
+                        g.threads[fts_solo].state = ThState::Running;
+                        drop(g);
+                        s.cv.notify_all();
+                        continue;
+                    } else {
+                        return Outcome::SoloExceeded(fts_solo, solo_steps);
+                    }
+                } else {
+                    g.trace.push(Rec::Info { text: format!("solo ends after {} steps", solo_steps) });
+                    fts_phase = 3;
+                }
+            }
+        }
         let pick = match strat {
+            Strategy::FreezeThenSolo { .. } => {
+                let others: Vec<usize> = cands.iter().cloned().filter(|&i| !(fts_phase == 1 && i == fts_victim)).collect();
+                if others.is_empty() { fts_phase = 3; cands[rng.below(cands.len())] } else { others[rng.below(others.len())] }
+            }
             Strategy::Random => cands[rng.below(cands.len())],
             Strategy::Pct { .. } => {
                 let p = *cands.iter().max_by_key(|&&i| prio[i]).unwrap();
@@ -426,6 +534,7 @@ pub fn control(s: &Arc<Sched>, strat: &Strategy, rng: &mut Rng, budget: usize) -
                     others[rng.below(others.len())]
                 }
             }
+            Strategy::Solo { .. } => cands[rng.below(cands.len())],
             Strategy::Replay(v) => {
                 let p = if replay_pos < v.len() && enabled.contains(&v[replay_pos]) {
                     v[replay_pos]
